@@ -5,7 +5,7 @@ A *case* is a dict: idx, klass, act=(mode, err, flags), recs=[rec...], ops=[op..
   op  = ('U', bytes) | ('TN',) | ('T', bytes) | ('TS',)
 The script text (see harness/h_dnssrv.c) is the single source of truth: the oracle re-reads the script
 file, so a replay needs nothing but the script lines of one case."""
-import hashlib, os, random, struct, sys, time
+import hashlib, os, random, struct, sys
 from concurrent.futures import ProcessPoolExecutor
 from ref import dnswire_srv as W
 
@@ -642,7 +642,8 @@ def gen_case_c37(rng, idx, thorough):
         tgt = rng.choice([300, 500, 512, 513, 600, 700, 900, 1000, 1100, 1200, 1232, 1400, 1452, 2000, 3000, 4096, 4100, 8192, 9000]) + rng.randint(-12, 12)
         recs.append(filler(rng, names, max(0, tgt - 60), None, names.text(names.fresh(2))))
     elif r < 0.5 and thorough:
-        recs.append(filler(rng, names, rng.choice([16000, 33000, 65000]), None, names.text(names.fresh(2))))
+        # big replies, but clear of the 64 KiB edge: what happens there is C35's business (known findings with process aborts)
+        recs.append(filler(rng, names, rng.choice([16000, 33000, 60000]), None, names.text(names.fresh(2))))
     a = rng.random()
     mode, err = (1, 0) if a < 0.08 else (0, rng.choice([0, 0, 0, 3, 2, 5]))
     ops = []
@@ -752,7 +753,11 @@ def judge_file(prop, script_path, out_path):
 
 
 def _judge_file(spec):
-    return judge_file(*spec)
+    try:
+        return judge_file(*spec)
+    except Exception:
+        import traceback
+        return dict(stats={}, viols=[], hashes=[], samples=[], evaluated=0, error="oracle failed on %s: %s" % (spec[2], traceback.format_exc()[-1500:]))
 
 
 def case_text(script_path, idx):
@@ -772,7 +777,7 @@ def case_text(script_path, idx):
 
 # ----------------------------------------------------------------------------- shared runner
 QUICK_CASES = dict(C35=1440, C37=4800)
-THOROUGH_ROUNDS = dict(C35=60, C37=90)
+THOROUGH_ROUNDS = dict(C35=60, C37=60)
 EDGE_JOBS = dict(C35=[("64k-edge", 1)] * 4 + [("64k-tcp-exact", 1)] * 2 + [("64k", 3)] * 20 + [("limit-hi", 3)] * 12, C37=[])
 
 
@@ -786,16 +791,16 @@ def run_check(prop, tier, seed, rule, required, assumptions):
     nfiles = 16
     per_file = QUICK_CASES[prop] // nfiles
     evaluated = 0
-    nsamples = 0
+    fnd = vlib.Findings()
     with ProcessPoolExecutor(max_workers=vlib.NCPU) as pool:
         for rd in range(rounds):
             specs = []
             first = rd * 1000000
             for i in range(nfiles):
-                specs.append((prop, seed, os.path.join(wd, "s%d-r%d-f%d.script" % (seed, rd, i)), first, per_file, thorough, None))
+                specs.append((prop, seed, os.path.join(wd, "%s%d-r%d-f%d.script" % (tier[0], seed, rd, i)), first, per_file, thorough, None))
                 first += per_file
             for i, (klass, n) in enumerate(EDGE_JOBS[prop]):
-                specs.append((prop, seed, os.path.join(wd, "s%d-r%d-e%d.script" % (seed, rd, i)), first, n, thorough, klass))
+                specs.append((prop, seed, os.path.join(wd, "%s%d-r%d-e%d.script" % (tier[0], seed, rd, i)), first, n, thorough, klass))
                 first += n
             list(pool.map(_gen_file, specs))
             jobs = [dict(args=["--arg", sp[2]], tag=os.path.basename(sp[2])[:-7], replay=dict(script_file=sp[2])) for sp in specs]
@@ -812,6 +817,8 @@ def run_check(prop, tier, seed, rule, required, assumptions):
                         v["text"] = v["text"][:1200] + "\n[case %d class of script: %s]" % (rp["only"], txt[1] if len(txt) > 1 else "")
             results = list(pool.map(_judge_file, [(prop, o["job"]["args"][1], o["out"]) for o in outs]))
             for o, r in zip(outs, results):
+                if r.get("error"):
+                    res.inconclusive.append(r["error"])     # a failure of the oracle itself is never a verdict
                 evaluated += r["evaluated"]
                 for k, n in r["stats"].items():
                     res.add_stat(k, n)
@@ -826,13 +833,17 @@ def run_check(prop, tier, seed, rule, required, assumptions):
                     os.unlink(sp[2])
                 except OSError:
                     pass
-            for o in outs:
-                for p in (o["out"],):
-                    try:
-                        if os.path.getsize(p) > (1 << 20):
+            for o, r in zip(outs, results):
+                # keep the raw output only of jobs that produced a report
+                keys = list(o["keys"]) + [v[0] for v in r["viols"]]
+                if not r.get("error") and all(fnd.match(prop, k) is not None for k in keys):
+                    for p in (o["out"], o["err"]):
+                        try:
                             os.unlink(p)
-                    except OSError:
-                        pass
+                        except OSError:
+                            pass
+                elif os.path.getsize(o["out"]) > (8 << 20):
+                    os.unlink(o["out"])
     res.evaluations = evaluated
     res.add_stat("cases_judged", evaluated)
     return vlib.finish(res, tier, seed, rule, required=required, assumptions=assumptions)
